@@ -25,11 +25,13 @@
                               or an unquote in callee position stays as it is (finding, repaired by /repo c6016b2);
      "SharedArgAsMapKey"      unquote returns the argument's node itself, not a copy: a parameter used
                               as two keys of one map literal is ONE key node, both entries carry the
-                              value of the last one                                     (known finding).
+                              value of the last one                  (finding, repaired in /repo since);
+     "ResetDropsMacros"       the state reset after a recovered Go panic also empties the macro store
+                              (action level: Fail("panic")) - violates StoreUnchanged.
    With dv = {} the operators are the property-level oracle.
 
    Properties (TLC, every state reached after a Define; they depend on `macros` only):
-     StoreUnchanged   an ExpandProgram step leaves `macros` as it was;
+     StoreUnchanged   an ExpandProgram step and a failing input (Fail) leave `macros` as it was;
      Independent      expanding a program with two call sites = expanding each site alone;
      MacroFreeFixed   expansion is the identity on programs without macro calls, and expanding an
                       expanded (macro-free) program changes nothing;
@@ -42,7 +44,12 @@
    s around m(argument tuple a)) over the product Defs x argument tuples x Sites (sampled by Stride /
    Offset outside the exhaustive core) plus programs with 2..3 uses; "small" sessions are all
    interleavings up to MaxOps of definitions / re-definitions of two macros and programs that use
-   both, nested in each other's arguments.                                                   *)
+   both, nested in each other's arguments; "redef" sessions are Define ; use ; Redefine (same name, other
+   template) ; the same call text again (RedefDiscriminates: the expected tree differs); "fail" sessions put
+   a failing input (Fail(kind): language error, recovered panic, parse error, deadline) between the
+   definition and a use (FailKeepsMacros).  Sites RepSiteLo..NS hold the same call several times in one node
+   (two keys of one map literal, both operands, two elements, two arguments) and are always generated for
+   the templates without unquote (NoHoles).                                                  *)
 EXTENDS Integers, Sequences, TLC, Json, GrolPrims
 
 CONSTANTS Deviation,   \* set of deviation names the ACTIONS run with ({} = the property)
@@ -298,6 +305,7 @@ Defs1 ==   \* one level; every parameter used 0..3 times
   \o [j \in 1..NT |-> D(P4, Tc(j, H(1), H(2), H(4)))]
   \o [j \in 1..6  |-> D(P4, Uc(j, H(4)))]
   \o <<D(P4, IntL("7"))>>
+  \o <<D(<<>>, Str("key")), D(P2, X), D(<<>>, Arr(<<One, X>>))>>     \* more templates without unquote
 
 Defs2 ==   \* two levels (thorough)
      [i \in 1..(NU * NU) |-> D(P1, Uc(((i - 1) \div NU) + 1, Uc(((i - 1) % NU) + 1, H(1))))]
@@ -321,7 +329,8 @@ MCallArity(name, np, a, delta) ==
   IF delta > 0 THEN Call(Id(name), Tup(ArgTuple(np + 1, a), np + 1)) ELSE Call(Id(name), Tup(ArgTuple(np - 1, a), np - 1))
 
 \* call sites: the statements around the call C (np = arity of the macro, for the nesting site)
-NS == 28
+NS == 33
+RepSiteLo == 29   \* sites RepSiteLo..NS hold the SAME call several times in one node (two map keys, both operands, ..)
 Rep(c, n) == CASE n = 0 -> <<>> [] n = 1 -> <<c>> [] n = 2 -> <<c, c>> [] n = 3 -> <<c, c, c>> [] n = 4 -> <<c, c, c, c>>
 Site(s, C, np) ==
   CASE s = 1  -> <<C>>
@@ -352,9 +361,20 @@ Site(s, C, np) ==
     [] s = 26 -> <<Call(Id("m"), Rep(C, np))>>                                 \* inside the macro's own arguments
     [] s = 27 -> <<Dot(MapL(<< <<Str("k"), C>> >>), "k")>>
     [] s = 28 -> <<Inf("&&", U, C)>>
+    \* the same call at several places of ONE node: every place is its own sub-tree (map literals are keyed by node)
+    [] s = 29 -> <<MapL(<< <<C, Asg(FALSE, Id("cnt"), Inf("+", Id("cnt"), One))>>,
+                          <<C, Asg(FALSE, Id("cnt"), Inf("+", Id("cnt"), IntL("10")))>> >>)>>
+    [] s = 30 -> <<Arr(<<C, C>>)>>
+    [] s = 31 -> <<Call(Id("f2"), <<C, C>>)>>
+    [] s = 32 -> <<Inf("+", C, C)>>
+    [] s = 33 -> <<MapL(<< <<C, C>>, <<C, C>> >>)>>
 
+\* a template without any unquote (no parameter, or every parameter used 0 times): its expansions must still be
+\* trees of their own, so these definitions get every repeated-call site
+NoHoles(d) == SubstD(Defs[d].tpl, Defs[d].ps, <<None, None, None, None>>, {}) = Defs[d].tpl
 Sel(d, a, s) ==
   \/ d >= CoreLo /\ d <= CoreHi /\ s <= CoreSites
+  \/ s >= RepSiteLo /\ a <= 4 /\ NoHoles(d)
   \/ (d * 7919 + a * 104729 + s * 1299709 + Offset) % Stride = 0
 
 \* programs with several uses of one macro (every definition gets them)
@@ -433,14 +453,61 @@ SmallExpand ==
   /\ \/ \E p \in 1..NSmallProgs : ExpandProgram(SmallProg(p, macros), "small")
      \/ \E i \in 1..Len(MacroFree) : Len(hist) = 1 /\ ExpandProgram(MacroFree[i], "macrofree")
 
-Next == MainDefine \/ MainExpand \/ NoMacroExpand \/ SmallDefine \/ SmallExpand
+\* "redef" sessions: use, re-definition of the SAME name with another template, then the same call text again
+\* (top level, as an argument, inside a function defined after the re-definition, twice in one array)
+Redefine(name, ps, tpl, mode, ix) ==
+  /\ name \in DOMAIN macros /\ macros[name].tpl # tpl
+  /\ Define(name, ps, tpl, mode, ix)
+RedefPairs == <<
+  <<D(P1, Inf("*", H(1), Two)), D(P1, Inf("-", IntL("9"), H(1)))>>,
+  <<D(P1, H(1)), D(P1, Inf("+", H(1), H(1)))>>,                        \* parameter used once -> twice
+  <<D(P1, IntL("7")), D(P1, H(1))>>,                                    \* unused -> used
+  <<D(P2, Inf("-", H(2), H(1))), D(P2, Inf("-", H(1), H(2)))>>,
+  <<D(<<>>, Str("old")), D(<<>>, Str("new"))>> >>
+NRedefProgs == 4
+RedefProg(p, np) ==
+  CASE p = 1 -> <<MCall("m", np, 3)>>
+    [] p = 2 -> <<Bi("println", <<MCall("m", np, 3)>>)>>
+    [] p = 3 -> <<Fn("ff", <<>>, FALSE, FALSE, <<MCall("m", np, 3)>>), Call(Id("ff"), <<>>)>>
+    [] p = 4 -> <<MCall("m", np, 2), Arr(<<MCall("m", np, 3), MCall("m", np, 3)>>)>>
+RedefDefine == Len(hist) = 0 /\ \E i \in 1..Len(RedefPairs) :
+                 Define("m", RedefPairs[i][1].ps, RedefPairs[i][1].tpl, "redef", i)
+RedefExpand == /\ Len(hist) \in {1, 3} /\ Mode = "redef"
+               /\ \E p \in 1..NRedefProgs : ExpandProgram(RedefProg(p, Len(hist[1].ps)), "redef")
+RedefStep   == /\ Len(hist) = 2 /\ Mode = "redef"
+               /\ LET d == RedefPairs[hist[1].ix][2] IN Redefine("m", d.ps, d.tpl, "redef", hist[1].ix)
+
+\* "fail" sessions: between the definition and a use an unrelated input fails (language error, Go panic recovered by
+\* repl.EvalOne - which resets the state -, parse error, deadline).  The macro store is session state: it survives.
+Fail(kind) ==
+  /\ macros' = IF "ResetDropsMacros" \in Deviation /\ kind = "panic" THEN NoMacros ELSE macros
+  /\ hist' = Append(hist, [op |-> "fail", kind |-> kind, mode |-> hist[1].mode])
+FailKinds == <<"error", "panic", "parse", "timeout">>
+NFailProgs == 3
+FailProg(p, np) ==
+  CASE p = 1 -> <<MCall("m", np, 3)>>
+    [] p = 2 -> <<Fn("ff", <<>>, FALSE, FALSE, <<MCall("m", np, 2)>>), Bi("println", <<Call(Id("ff"), <<>>)>>)>>
+    [] p = 3 -> <<Asg(FALSE, Id("r"), MCall("m", np, 19)), For(Two, <<MCall("m", np, 7)>>)>>
+HasFailed == \E i \in 1..Len(hist) : hist[i].op = "fail"
+FailDefine == Len(hist) = 0 /\ \E k \in 1..Len(SmallDefs) : Define("m", SmallDefs[k].ps, SmallDefs[k].tpl, "fail", k)
+FailExpand ==
+  /\ Mode = "fail" /\ Len(hist) <= 3
+  /\ (Len(hist) = 1 \/ hist[Len(hist)].op = "fail")       \* one optional use before the failing input, one after it
+  /\ \E p \in 1..NFailProgs : (HasFailed \/ p <= 2) /\ ExpandProgram(FailProg(p, Len(hist[1].ps)), "fail")
+FailStep ==
+  /\ Mode = "fail" /\ Len(hist) \in {1, 2} /\ ~HasFailed
+  /\ \E k \in 1..Len(FailKinds) : (FailKinds[k] = "timeout" => hist[1].ix = 1) /\ Fail(FailKinds[k])
+
+Next == \/ MainDefine \/ MainExpand \/ NoMacroExpand \/ SmallDefine \/ SmallExpand
+        \/ RedefDefine \/ RedefExpand \/ RedefStep
+        \/ FailDefine \/ FailExpand \/ FailStep
 Spec == Init /\ [][Next]_vars
 
 \* ------------------------------------------------------------------ properties
 LastIsDef == Len(hist) > 0 /\ hist[Len(hist)].op = "def"
 LastIsExp == Len(hist) > 0 /\ hist[Len(hist)].op = "exp"
 
-StoreUnchanged == [][(hist' # hist /\ hist'[Len(hist')].op = "exp") => macros' = macros]_vars
+StoreUnchanged == [][(hist' # hist /\ hist'[Len(hist')].op # "def") => macros' = macros]_vars   \* uses AND failing inputs
 
 \* call-site statements over the current store used by the invariants
 CheckCalls ==
@@ -472,6 +539,14 @@ ArgsFirst ==
       (Ar(macros, n1) = 1 /\ Ar(macros, n2) = 1) =>
         Exp0(<<Call(Id(n1), <<Call(Id(n2), <<Inf("+", X, One)>>)>>)>>).t
           = <<Subst(macros[n1].tpl, macros[n1].ps, <<Subst(macros[n2].tpl, macros[n2].ps, <<Inf("+", X, One)>>)>>)>>
+
+\* the generated re-definition sessions discriminate: the same program text has a different expected tree after the
+\* re-definition than before it (so a stale expansion cannot pass)
+RedefDiscriminates ==
+  (Mode = "redef" /\ Len(hist) = 4 /\ hist[4].prog = hist[2].prog) => hist[4].out # hist[2].out
+\* a defined macro is still expanded after a failing input
+FailKeepsMacros ==
+  (Mode = "fail" /\ LastIsExp /\ Deviation = {}) => ~AnyMacroCall(hist[Len(hist)].out, macros) /\ "m" \in DOMAIN macros
 
 \* the expected tree recorded with every expansion step is the oracle's
 OracleRecorded ==
